@@ -68,6 +68,28 @@ func c14R6(p *core.Prog, r *core.Report) {
 			heads = append(heads, c)
 		}
 	}
+	// a helper of the traversal that is handed the target and asks it
+	isHead := func(f *types.Func) bool { return core.IsModMethod(f, ".", "RegClient", "ManifestHead") }
+	core.Calls(trav, func(c ssa.CallInstruction) {
+		h := core.CalleeFn(c)
+		if h == nil || h == trav || !core.Helpers(trav, 2)[h] {
+			return
+		}
+		for i, a := range c.Common().Args {
+			if i >= len(h.Params) || paramOf(a) != tgt {
+				continue
+			}
+			for _, g := range sortedFuncs(core.Helpers(h, 1)) {
+				for _, hc := range core.CallsTo(g, isHead) {
+					for _, o := range core.Origins(core.CallArg(hc, 2), core.SliceOpts{Through: refThroughAll, Helpers: core.Helpers(h, 1), Callers: core.Helpers(h, 1)}) {
+						if o.Kind == core.OParam && o.Param == h.Params[i] {
+							heads = append(heads, c)
+						}
+					}
+				}
+			}
+		}
+	})
 	for _, c := range core.CallsTo(trav, func(f *types.Func) bool { return core.IsModMethod(f, ".", "RegClient", "ManifestGet") }) {
 		if pr := paramOf(core.CallArg(c, 2)); pr != nil && pr != tgt {
 			gets = append(gets, c)
